@@ -162,7 +162,12 @@ pub fn gen_managed(rng: &mut Rng, cfg: &GenCfg) -> MScenario {
         (None, None, None)
     };
     let any_pool_t = wait.is_some() || create.is_some() || recycle.is_some();
-    let runtime = any_pool_t || !cfg.no_runtime_calls || rng.coin();
+    let runtime = if cfg.no_runtime_calls {
+        // C10: pool-level timeouts without runtime must be refused by build()
+        if any_pool_t { rng.below(100) < 90 } else { rng.coin() }
+    } else {
+        true
+    };
     let nh = |rng: &mut Rng| -> Vec<bool> {
         let n = *rng.pick(&[0usize, 0, 0, 1, 1, 2, 3]);
         (0..n.min(cfg.max_hooks)).map(|_| rng.coin()).collect()
